@@ -16,7 +16,7 @@
      statement is kept in the comment above them. *)
 From Coq Require Import List ZArith Bool Arith Lia.
 From SC Require Import Base.Res Base.PyList Inst.Heap Inst.ClassTable Inst.Model Inst.Canon
-  Inst.Abs Inst.SpecHelpers Inst.RefineProofs Inst.CopyProofs Inst.CopyStore Inst.RefineMore Inst.RefineMore2 Inst.RefineMore3 Inst.RefineMore4 Inst.RefineMore5 Inst.RefineMore6 Inst.RefineMore7 Inst.RefineMore8 Inst.RefineMore9 Inst.RefineMore10.
+  Inst.Abs Inst.SpecHelpers Inst.RefineProofs Inst.CopyProofs Inst.CopyStore Inst.RefineMore Inst.RefineMore2 Inst.RefineMore3 Inst.RefineMore4 Inst.RefineMore5 Inst.RefineMore6 Inst.RefineMore7 Inst.RefineMore8 Inst.RefineMore9 Inst.RefineMore10 Inst.RefineMore11.
 Import ListNotations.
 Open Scope nat_scope.
 
@@ -1168,6 +1168,67 @@ Example C05_example_container :
    r = Ok (VRef 2) /\ nth_error (heap s') 2 = Some (OInst 7 [(8, VRef 1)])).
 Proof. vm_compute. repeat split. Qed.
 
+(* ---------------- update_<a>(x=v, ...) merges keywords into the nested value (Inst/RefineMore11.v) ---------------- *)
+(* "update_<a> merges keywords into the existing nested value": the receiver (any acyclic
+   instance of an unfrozen class without invalidated_by, in a closed heap) holds under `a`
+   (annotation a spec class, possibly Optional / Union; no preparer or the identity) a FLAT
+   instance of an unfrozen class kn without invalidated_by / __post_copy__ hook; the keywords
+   are covered by `kw_ok kn`.  update_<a>(_inplace=True, x=v, ...) deep-copies the nested
+   value, assigns the keywords on the copy one after the other (the specification's fold,
+   first error class), and stores the copy in the receiver: the receiver's abstraction is the
+   specification's, the OLD nested instance and every other pre-existing cell are untouched
+   (only the receiver's cell changes; on an error nothing pre-existing changes at all).
+   STILL MISSING: keywords that build a nested value from nothing (with_<a>(x=v) /
+   update_<a> on an attribute holding nothing: the constructor), nested values that are
+   themselves nested, dict-as-constructor-arguments, the copy-on-write form. *)
+Theorem C05_update_nested_refines_partial : forall ct h0 l a c d k sp s ln cn dn kn p0 ps,
+  nth_error (heap s) l = Some (OInst c d) -> lookup_cls ct c = Some k -> lookup_attr k a = Some sp ->
+  NoDup (map fst d) -> aok (absv (heap s) (VRef l)) = true ->
+  c_frozen k = false -> no_inval k -> fail_at s = None ->
+  ty_depth (a_ty sp) < FUEL -> ty_is_collection (a_ty sp) = false ->
+  a_prepare sp = None \/ a_prepare sp = Some FId ->
+  closed (length (heap s)) (heap s) ->
+  assoc a d = Some (VRef ln) -> nth_error (heap s) ln = Some (OInst cn dn) -> lookup_cls ct cn = Some kn ->
+  NoDup (map fst dn) -> flat_fields (heap s) dn ->
+  c_dnc kn = false -> c_frozen kn = false -> no_inval kn -> c_post_copy kn = None ->
+  forallb (kw_ok kn) (p0 :: ps) = true ->
+  let h := mkh [] true true VMissing false None (Some (p0 :: ps)) [] None in
+  let ah := mkah [] true true AMissing false None (Some (akw (p0 :: ps))) [] None in
+  match run_helper ct l (HUpdate a) h s with
+  | (Ok r, s') => r = VRef l /\
+                  spec_helper ct h0 (absv (heap s) (VRef l)) (SUpdate a) ah = SOk (absv (heap s') (VRef l)) /\
+                  (forall i, i < length (heap s) -> i <> l -> nth_error (heap s') i = nth_error (heap s) i)
+  | (Err e, s') => spec_helper ct h0 (absv (heap s) (VRef l)) (SUpdate a) ah = SErr e /\
+                   (forall i, i < length (heap s) -> nth_error (heap s') i = nth_error (heap s) i)
+  end.
+Proof.
+  intros ct h0 l a c d k sp s ln cn dn kn p0 ps Hl Hc Ha Hd Hok Hfz Hni Hfa Hty Hnc Hprep Hclosed
+         Hcur Hn Hcn Hdn Hflatn Hdncn Hfzn Hnin Hpcn Hkws.
+  exact (update_nested_inplace_refines ct h0 l a c d k sp s ln cn dn kn Hl Hc Ha Hd Hok Hfz Hni Hfa Hty Hnc Hprep Hclosed
+           Hcur Hn Hcn Hdn Hflatn Hdncn Hfzn Hnin Hpcn p0 ps Hkws).
+Qed.
+
+(* non-vacuity: the K4 instance of ex_ct3 holding the K2 instance of cell 0;
+   update_a5(a1=5, a3=None, _inplace=True): a fresh K2 with a1 = prepare(5) = 6, the old one untouched *)
+Definition ex_state5 : state := mkst [OInst 2 [(1, VInt 7); (3, VInt 9)]; OInst 4 [(5, VRef 0)]] 0 None.
+Example C05_example_update_nested :
+  closed (length (heap ex_state5)) (heap ex_state5) /\
+  forallb (kw_ok ex_k2) [(1, VInt 5); (3, VNone)] = true /\
+  (let '(r, s') := run_helper ex_ct3 1 (HUpdate 5)
+                     (mkh [] true true VMissing false None (Some [(1, VInt 5); (3, VNone)]) [] None) ex_state5 in
+   r = Ok (VRef 1) /\ nth_error (heap s') 1 = Some (OInst 4 [(5, VRef 2)]) /\
+   nth_error (heap s') 2 = Some (OInst 2 [(1, VInt 6); (3, VNone)]) /\
+   nth_error (heap s') 0 = nth_error (heap ex_state5) 0) /\
+  spec_helper ex_ct3 [] (absv (heap ex_state5) (VRef 1)) (SUpdate 5)
+              (mkah [] true true AMissing false None (Some (akw [(1, VInt 5); (3, VNone)])) [] None)
+    = SOk (AInst 4 [(5, AInst 2 [(1, AInt 6); (3, ANone)])]).
+Proof.
+  split.
+  { intros i o Hi Ho. destruct i as [|[|i]]; vm_compute in Ho; inversion Ho; subst; try (simpl in Hi; lia);
+      repeat constructor. }
+  vm_compute. repeat split.
+Qed.
+
 Print Assumptions C05_noop_if_false.
 Print Assumptions C05_noop_with_unchanged.
 Print Assumptions C05_noop_update_unchanged.
@@ -1225,3 +1286,5 @@ Print Assumptions C05_copy_inval_refines_partial.
 Print Assumptions C05_refines_container_partial.
 Print Assumptions C05_setattr_refines_container_partial.
 Print Assumptions C05_example_container.
+Print Assumptions C05_update_nested_refines_partial.
+Print Assumptions C05_example_update_nested.
